@@ -1582,7 +1582,6 @@ func ruleBinOpPairsMatched(r *Run) {
 	}
 }
 
-
 // xxhashEmpty is XXH64 of the empty input with seed 0 (test vector of the xxHash specification).
 const xxhashEmpty uint64 = 0xEF46DB3751D8E999
 
